@@ -32,6 +32,7 @@ import (
 	"sync/atomic"
 	"time"
 
+	"golang.org/x/perf/storage"
 	sapp "golang.org/x/perf/storage/app"
 	"golang.org/x/perf/storage/db"
 	_ "golang.org/x/perf/storage/db/sqlite3"
@@ -770,7 +771,145 @@ func upReplayIDs(c *upCase) ([]upIDEvent, Verdict) {
 	return events, pass()
 }
 
+// ---------------------------------------------------------------- in-flight observations
+
+// upInflight: concurrent storage.Client uploads against a real HTTP server on a
+// file-backed database while an observer keeps querying; events for Upload_vis.tla.
+// args: out.ndjson ntraces
+func upInflight(args []string) error {
+	if len(args) < 2 {
+		return fmt.Errorf("inflight <out.ndjson> <n>")
+	}
+	var n int
+	fmt.Sscanf(args[1], "%d", &n)
+	ew, err := newEventWriter(args[0])
+	if err != nil {
+		return err
+	}
+	for t := 0; t < n; t++ {
+		rng := newRand(int64(9100 + t))
+		a, err := upNewApp(false, true)
+		if err != nil {
+			return err
+		}
+		srv := httptest.NewServer(a.mux)
+		cl := &storage.Client{BaseURL: srv.URL, HTTPClient: srv.Client()}
+		var mu sync.Mutex
+		emit := func(ev map[string]interface{}) {
+			ev["t"] = t
+			ew.emit(ev)
+		}
+		mu.Lock()
+		emit(map[string]interface{}{"ev": "reset"})
+		mu.Unlock()
+		observe := func() {
+			// one query; the snapshot is taken by the database, the event is logged afterwards,
+			// so client events that happen in between could make the observation look stale:
+			// the client side therefore takes the same lock around its phase changes
+			mu.Lock()
+			defer mu.Unlock()
+			q := a.db.Query("")
+			counts := map[string]int{}
+			for q.Next() {
+				counts[q.Result().Labels["who"]]++
+			}
+			err := q.Err()
+			q.Close()
+			if err != nil {
+				return // database busy: no observation
+			}
+			seen := [][]interface{}{}
+			var ks []string
+			for k := range counts {
+				ks = append(ks, k)
+			}
+			sort.Strings(ks)
+			for _, k := range ks {
+				seen = append(seen, []interface{}{k, counts[k]})
+			}
+			emit(map[string]interface{}{"ev": "observe", "seen": seen})
+		}
+		nup := 2 + rng.Intn(3)
+		var wg sync.WaitGroup
+		stop := make(chan struct{})
+		obsDone := make(chan struct{})
+		go func() {
+			defer close(obsDone)
+			for {
+				select {
+				case <-stop:
+					observe()
+					return
+				default:
+					observe()
+					time.Sleep(time.Duration(200+rng.Intn(300)) * time.Microsecond)
+				}
+			}
+		}()
+		type plan struct {
+			who    string
+			files  int
+			recs   int
+			abort  bool
+			delay  time.Duration
+		}
+		var plans []plan
+		for i := 0; i < nup; i++ {
+			plans = append(plans, plan{who: fmt.Sprintf("u%d", i+1), files: 1 + rng.Intn(2), recs: 1 + rng.Intn(4), abort: rng.Intn(4) == 0,
+				delay: time.Duration(rng.Intn(3)) * time.Millisecond})
+		}
+		for _, p := range plans {
+			wg.Add(1)
+			go func(p plan) {
+				defer wg.Done()
+				time.Sleep(p.delay)
+				mu.Lock()
+				emit(map[string]interface{}{"ev": "begin", "u": p.who, "total": p.files * p.recs})
+				mu.Unlock()
+				u := cl.NewUpload(context.Background())
+				for f := 1; f <= p.files; f++ {
+					w, err := u.CreateFile(fmt.Sprintf("%s-f%d.txt", p.who, f))
+					if err != nil {
+						break
+					}
+					fmt.Fprintf(w, "who: %s\n", p.who)
+					for r := 1; r <= p.recs; r++ {
+						fmt.Fprintf(w, "rec: r%d\nBenchmark%sF%dR%d 1 %d ns/op\n", r, strings.ToUpper(p.who), f, r, r)
+						if r%2 == 0 {
+							time.Sleep(100 * time.Microsecond)
+						}
+					}
+				}
+				if p.abort {
+					mu.Lock()
+					emit(map[string]interface{}{"ev": "abort", "u": p.who})
+					mu.Unlock()
+					u.Abort()
+					return
+				}
+				mu.Lock()
+				emit(map[string]interface{}{"ev": "commit.call", "u": p.who})
+				mu.Unlock()
+				_, err := u.Commit()
+				mu.Lock()
+				emit(map[string]interface{}{"ev": "commit.ret", "u": p.who, "ok": err == nil})
+				mu.Unlock()
+			}(p)
+		}
+		wg.Wait()
+		close(stop)
+		<-obsDone
+		srv.Close()
+		a.close()
+	}
+	ew.emit(map[string]interface{}{"ev": "reset", "t": -1})
+	return ew.close()
+}
+
 func famUpload(mode string, args []string) error {
+	if mode == "inflight" {
+		return upInflight(args)
+	}
 	if mode != "replay" {
 		return fmt.Errorf("upload: unknown mode %q", mode)
 	}
